@@ -525,9 +525,37 @@ func shapeRules(c *core.Ctx) {
 			}
 			r := p.Results[0]
 			if read == nil {
-				// no-op return: n <= 0 must be established here
+				// no-op return: n <= 0 must be established on this path (by one of its own branch outcomes) or at the block
 				if lastBlock == nil {
 					lastBlock = fn.Blocks[0]
+				}
+				onPath := false
+				for _, e := range p.Events {
+					if e.Kind != paths.EvBranch || e.Depth != 0 {
+						continue
+					}
+					bo, ok := e.Cond.(*ssa.BinOp)
+					if !ok {
+						continue
+					}
+					x, y, op := bo.X, bo.Y, bo.Op
+					if y == ssa.Value(n) {
+						x, y = y, x
+						op = map[token.Token]token.Token{token.LSS: token.GTR, token.GTR: token.LSS, token.LEQ: token.GEQ, token.GEQ: token.LEQ, token.EQL: token.EQL, token.NEQ: token.NEQ}[op]
+					}
+					k, isK := constInt(y)
+					if x != ssa.Value(n) || !isK {
+						continue
+					}
+					if !e.Taken {
+						op = map[token.Token]token.Token{token.LSS: token.GEQ, token.GEQ: token.LSS, token.GTR: token.LEQ, token.LEQ: token.GTR, token.EQL: token.NEQ, token.NEQ: token.EQL}[op]
+					}
+					if (op == token.LEQ && k <= 0) || (op == token.LSS && k <= 1) || (op == token.EQL && k <= 0) {
+						onPath = true
+					}
+				}
+				if onPath {
+					continue
 				}
 				if ok, _ := pv.Prove(lastBlock, pv.LinOf(n).Scale(-1), nil); !ok {
 					problems = append(problems, "a path returns without reading and without an error although n <= 0 is not established: a positive-width field is skipped and every later field is read from the wrong offset")
@@ -593,8 +621,9 @@ func shapeRules(c *core.Ctx) {
 					continue
 				}
 				type pending struct {
-					call *ssa.Call
-					ok   bool
+					call  *ssa.Call
+					ok    bool
+					cntOK bool // for (n, err) results: `n == <expected>` established on the path
 				}
 				var pend []*pending
 				stored := false
@@ -623,6 +652,17 @@ func shapeRules(c *core.Ctx) {
 							}
 						}
 					case paths.EvBranch:
+						if bo, isB := e.Cond.(*ssa.BinOp); isB && (bo.Op == token.EQL || bo.Op == token.NEQ) && (bo.Op == token.EQL) == e.Taken {
+							for _, side := range []ssa.Value{bo.X, bo.Y} {
+								if ex, isE := e.Resolve(side).(*ssa.Extract); isE && ex.Index == 0 {
+									for _, pd := range pend {
+										if ex.Tuple == ssa.Value(pd.call) {
+											pd.cntOK = true
+										}
+									}
+								}
+							}
+						}
 						subj, neq, ok := nilTest(e.Cond)
 						if !ok || neq == e.Taken {
 							continue
@@ -643,6 +683,7 @@ func shapeRules(c *core.Ctx) {
 					continue
 				}
 				for _, pd := range pend {
+					nres := pd.call.Call.Signature().Results().Len()
 					if !pd.ok {
 						// discarded on purpose (`_ = w.WriteByte(..)`) is judged by ERRCHK; here: tested but not on this path
 						hasTest := false
@@ -651,10 +692,37 @@ func shapeRules(c *core.Ctx) {
 								if ex, isE := r.(*ssa.Extract); isE && ex.Referrers() != nil && len(*ex.Referrers()) > 0 && isErrorType(ex.Type()) {
 									hasTest = true
 								}
+								if _, isB := r.(*ssa.BinOp); isB && nres == 1 {
+									hasTest = true // single error result compared with nil somewhere
+								}
 							}
 						}
 						if hasTest {
 							problems = append(problems, "a path continues after "+calleeName(pd.call)+" without `err == nil` established and without recording an error (some errors are let through)")
+						}
+					}
+					// a transfer count that the method looks at must have been found equal to what was expected on every path
+					// that goes on without an error (a flipped or dropped comparison leaves a path without that fact)
+					if nres == 2 && !pd.cntOK && pd.call.Referrers() != nil {
+						looked := false
+						for _, r := range *pd.call.Referrers() {
+							if ex, isE := r.(*ssa.Extract); isE && ex.Index == 0 && ex.Referrers() != nil {
+								for _, u := range *ex.Referrers() {
+									if bo, isB := u.(*ssa.BinOp); isB && (bo.Op == token.EQL || bo.Op == token.NEQ) {
+										looked = true
+									}
+									if ph, isPhi := u.(*ssa.Phi); isPhi && ph.Referrers() != nil { // var n int; if .. { n, err = w.Write(..) }; if n != len(..)
+										for _, uu := range *ph.Referrers() {
+											if bo, isB := uu.(*ssa.BinOp); isB && (bo.Op == token.EQL || bo.Op == token.NEQ) {
+												looked = true
+											}
+										}
+									}
+								}
+							}
+						}
+						if looked {
+							problems = append(problems, "a path continues after "+calleeName(pd.call)+" without the transfer count having been found equal to the expected one (and without recording an error)")
 						}
 					}
 				}
@@ -665,19 +733,124 @@ func shapeRules(c *core.Ctx) {
 		}
 	}
 
-	// --- integer pairs: same width and same order object on both sides
-	wn, _ := get("Writer", "writeNumeric")
-	rn, _ := get("Reader", "readNumeric")
-	var wOrder, rOrder ssa.Value
-	if wn != nil {
-		for _, call := range callsTo(wn, "encoding/binary", "Write") {
-			wOrder = orderSource(call.Call.Args[1])
+	// --- SetErrNil clears the sticky error on every path (the optional-parameter parsers rely on it after a clean EOF)
+	if fn, pos := get("Reader", "SetErrNil"); fn != nil {
+		ok := false
+		nRet := 0
+		for _, b := range fn.Blocks {
+			if _, isR := b.Instrs[len(b.Instrs)-1].(*ssa.Return); isR {
+				nRet++
+			}
+			for _, ins := range b.Instrs {
+				if st, isS := ins.(*ssa.Store); isS {
+					if _, f, isF := fieldOfAddr(st.Addr); isF && f.Name() == "opError" && paths.IsNilConst(st.Val) && b.Dominates(fn.Blocks[len(fn.Blocks)-1]) || (isS && len(fn.Blocks) == 1 && paths.IsNilConst(st.Val)) {
+						ok = true
+					}
+				}
+			}
+		}
+		c.Decide(ok && nRet == 1, rule, "packet.Reader.SetErrNil", pos, "stores nil into the sticky error", "SetErrNil does not clear the sticky error on every path: a parser that met the clean end of the optional parameters leaves the decoder failed")
+	}
+	// --- WriteCString: the text is written unless it is empty - a path that skips the write has established len(s) <= 0
+	if fn, pos := get("Writer", "WriteCString"); fn != nil && len(fn.Params) == 2 {
+		sArg := ssa.Value(fn.Params[1])
+		if ps, err := paths.Enumerate(fn, paths.Config{}); err == nil {
+			var problems []string
+			for _, p := range ps {
+				wrote, stored, entered, emptyKnown := false, false, false, false
+				first := true
+				for _, e := range p.Events {
+					switch e.Kind {
+					case paths.EvInstr:
+						if call, ok := e.Instr.(*ssa.Call); ok && (strings.HasSuffix(calleeName(call), "ByteBuffer).WriteString") || strings.HasSuffix(calleeName(call), "ByteBuffer).Write")) {
+							wrote = true
+						}
+						if st, ok := e.Instr.(*ssa.Store); ok {
+							if _, f, ok := fieldOfAddr(st.Addr); ok && f.Name() == "opError" {
+								stored = true
+							}
+						}
+					case paths.EvBranch:
+						if subj, neq, ok := nilTest(e.Cond); ok && first {
+							if u, isU := subj.(*ssa.UnOp); isU {
+								if _, f, isF := fieldOfAddr(u.X); isF && f.Name() == "opError" && neq == e.Taken {
+									entered = true
+								}
+							}
+						}
+						first = false
+						if bo, ok := e.Cond.(*ssa.BinOp); ok {
+							x, y, op := bo.X, bo.Y, bo.Op
+							if _, isK := constInt(x); isK {
+								x, y = y, x
+								op = map[token.Token]token.Token{token.LSS: token.GTR, token.GTR: token.LSS, token.LEQ: token.GEQ, token.GEQ: token.LEQ, token.EQL: token.EQL, token.NEQ: token.NEQ}[op]
+							}
+							k, isK := constInt(y)
+							if call, isC := x.(*ssa.Call); isC && isK {
+								if bi, isB := call.Call.Value.(*ssa.Builtin); isB && bi.Name() == "len" && call.Call.Args[0] == sArg {
+									if !e.Taken {
+										op = map[token.Token]token.Token{token.LSS: token.GEQ, token.GEQ: token.LSS, token.GTR: token.LEQ, token.LEQ: token.GTR, token.EQL: token.NEQ, token.NEQ: token.EQL}[op]
+									}
+									if (op == token.LEQ && k <= 0) || (op == token.LSS && k <= 1) || (op == token.EQL && k == 0) {
+										emptyKnown = true
+									}
+								}
+							}
+						}
+					}
+				}
+				if entered || stored || wrote {
+					continue
+				}
+				if !emptyKnown {
+					problems = append(problems, "a path skips the write of the text without having established that it is empty: the text is dropped (or the count check then fails) for some non-empty strings")
+				}
+			}
+			c.Decide(len(problems) == 0, rule, "packet.Writer.WriteCString#skip", pos, fmt.Sprintf("%d paths: the text write is skipped only for the empty string", len(ps)), strings.Join(dedup(problems), "; "))
 		}
 	}
-	if rn != nil {
-		for _, call := range callsTo(rn, "encoding/binary", "Read") {
-			rOrder = orderSource(call.Call.Args[1])
+
+	// --- integer pairs: same width and same order object on both sides. The value handed to encoding/binary is found on
+	// the SSA paths of the method with unexported helpers inlined (however many helper layers lie in between).
+	binaryUse := func(fn *ssa.Function, name string) (size int, order ssa.Value) {
+		if fn == nil {
+			return 0, nil
 		}
+		inline := func(call *ssa.Call, callee *ssa.Function) bool {
+			return callee.Pkg == fn.Pkg && callee.Object() != nil && !callee.Object().Exported() && len(callee.Blocks) > 0
+		}
+		ps, err := paths.Enumerate(fn, paths.Config{Inline: inline, MaxDepth: 3})
+		if err != nil {
+			return 0, nil
+		}
+		for _, p := range ps {
+			for _, e := range p.Events {
+				call, ok := e.Instr.(*ssa.Call)
+				if !ok || e.Kind != paths.EvInstr || calleeName(call) != "encoding/binary."+name {
+					continue
+				}
+				data := e.Resolve(call.Call.Args[2])
+				for i := 0; i < 4; i++ {
+					if ci, ok := data.(*ssa.ChangeInterface); ok {
+						data = e.Resolve(ci.X)
+					}
+				}
+				if mi, ok := data.(*ssa.MakeInterface); ok {
+					t := mi.X.Type()
+					if pt, ok := t.Underlying().(*types.Pointer); ok && name == "Read" {
+						t = pt.Elem()
+					}
+					if sz := basicSize(t); sz > 0 {
+						if size != 0 && size != sz {
+							return -1, nil
+						}
+						size = sz
+					}
+				}
+				order = orderSource(e.Resolve(call.Call.Args[1]))
+			}
+		}
+		return size, order
 	}
 	for _, bits := range []int{8, 16, 32, 64} {
 		wname, rname := fmt.Sprintf("WriteUint%d", bits), fmt.Sprintf("ReadUint%d", bits)
@@ -688,19 +861,8 @@ func shapeRules(c *core.Ctx) {
 			c.Broken(rule, key, "methods not found")
 			continue
 		}
-		ww, rw := 0, 0
-		for _, call := range callsTo(wf, "github.com/hujm2023/go-sms-protocol/packet", "Writer.writeNumeric") {
-			if mi, ok := call.Call.Args[1].(*ssa.MakeInterface); ok {
-				ww = basicSize(mi.X.Type())
-			}
-		}
-		for _, call := range callsTo(rf, "github.com/hujm2023/go-sms-protocol/packet", "Reader.readNumeric") {
-			if mi, ok := call.Call.Args[1].(*ssa.MakeInterface); ok {
-				if pt, ok := mi.X.Type().Underlying().(*types.Pointer); ok {
-					rw = basicSize(pt.Elem())
-				}
-			}
-		}
+		ww, wOrder := binaryUse(wf, "Write")
+		rw, rOrder := binaryUse(rf, "Read")
 		rt := 0
 		if rf.Signature.Results().Len() == 1 {
 			rt = basicSize(rf.Signature.Results().At(0).Type())
